@@ -4,7 +4,7 @@
 use core::hash::Hash;
 use std::{
     borrow::Borrow,
-    collections::BTreeMap,
+    collections::{BTreeMap, BTreeSet},
     fmt::{Debug, Display, Formatter, Result},
     marker::PhantomData,
     rc::Rc,
@@ -46,11 +46,14 @@ enum UnifiedId<I: Interner> {
 
 #[derive(Debug)]
 pub struct IdAliasStore<T> {
-    /// Map from the DefIds we've encountered to a u32 alias id unique to all ids
-    /// the same name.
-    aliases: IndexMap<T, u32>,
+    /// Map from the DefIds we've encountered to the name they are written with:
+    /// the item's own name, or `name_k` when an earlier id took that name.
+    aliases: IndexMap<T, String>,
     /// Map from each name to the next unused u32 alias id.
     next_unused_for_name: BTreeMap<String, u32>,
+    /// Every name handed out so far; a generated `name_k` must not collide
+    /// with an item that is literally called `name_k` (nor the other way round).
+    used_names: BTreeSet<String>,
 }
 
 impl<T> Default for IdAliasStore<T> {
@@ -58,26 +61,32 @@ impl<T> Default for IdAliasStore<T> {
         IdAliasStore {
             aliases: IndexMap::default(),
             next_unused_for_name: BTreeMap::default(),
+            used_names: BTreeSet::default(),
         }
     }
 }
 
 impl<T: Copy + Eq + Hash> IdAliasStore<T> {
     fn alias_for_id_name(&mut self, id: T, name: String) -> String {
-        let next_unused_for_name = &mut self.next_unused_for_name;
-        let alias = *self.aliases.entry(id).or_insert_with(|| {
-            let next_unused: &mut u32 = next_unused_for_name.entry(name.clone()).or_default();
-            let id = *next_unused;
-            *next_unused += 1;
-            id
-        });
-        // If there are no conflicts, keep the name the same so that we don't
-        // need name-agnostic equality in display tests.
-        if alias == 0 {
-            name
-        } else {
-            format!("{}_{}", name, alias)
+        if let Some(alias) = self.aliases.get(&id) {
+            return alias.clone();
         }
+        let next_unused: &mut u32 = self.next_unused_for_name.entry(name.clone()).or_default();
+        let alias = loop {
+            // If there are no conflicts, keep the name the same so that we don't
+            // need name-agnostic equality in display tests.
+            let candidate = if *next_unused == 0 {
+                name.clone()
+            } else {
+                format!("{}_{}", name, next_unused)
+            };
+            *next_unused += 1;
+            if self.used_names.insert(candidate.clone()) {
+                break candidate;
+            }
+        };
+        self.aliases.insert(id, alias.clone());
+        alias
     }
 }
 
